@@ -25,7 +25,7 @@ CT = '1.2.840.10008.5.1.4.1.1.2'
 NAME_OF = {v: k for k, v in ref_cmd.COMMAND_FIELD.items()}
 
 
-def compositions(n, full_limit=12, dev=3):
+def compositions(n, full_limit=12, dev=3):  # noqa
     """All groupings of n items into contiguous runs, as tuples of cut positions (subsets of 1..n-1)."""
     pos = list(range(1, n))
     if n <= full_limit:
@@ -53,11 +53,11 @@ def domain(tier):
 
 def cases(tier, seed):
     thorough = tier == 'thorough'
-    mls = [40, 70, 16384] + ([13, 25] if thorough else [])
+    mls = [40, 70, 16384] + ([13, 19, 25, 31, 100] if thorough else [])
     for name in msggen.CLASS_NAMES:
         for ml in mls:
             F = ml - 6
-            for n in (0, 1, F, F + 1, 2 * F + 1):
+            for n in ((0, 1, F, F + 1, 2 * F + 1) if not thorough else (0, 1, 2, F - 1, F, F + 1, 2 * F, 2 * F + 1, 3 * F + 2)):
                 if n > 3000:
                     continue
                 yield {'cls': name, 'maxlen': ml, 'dslen': n, 'mode': 'memory'}
@@ -69,6 +69,9 @@ def cases(tier, seed):
     # a long fragment list: deviation-bounded compositions
     yield {'cls': 'CStoreRQMessage', 'maxlen': 12, 'dslen': 40, 'mode': 'memory'}
     yield {'cls': 'CFindRSPMessage', 'maxlen': 14, 'dslen': 9, 'mode': 'memory'}
+    if thorough:
+        for name in ('CMoveRSPMessage', 'NEventReportRQMessage', 'CEchoRQMessage'):
+            yield {'cls': name, 'maxlen': 11, 'dslen': 17, 'mode': 'memory', 'dev': 4}
 
 
 def _dicom_bytes(ts, pad):
@@ -170,7 +173,7 @@ def run_case(case):
     ncomp = 0
     keys = 0
     try:
-        for cuts in compositions(n):
+        for cuts in compositions(n, 13 if case.get('thorough') else 12, case.get('dev', 3)):
             ncomp += 1
             bounds = [0] + list(cuts) + [n]
             groups = [frags[bounds[i]:bounds[i + 1]] for i in range(len(bounds) - 1)]
